@@ -165,6 +165,44 @@ def trace {Conf : Type} (marshal : Conf → Option Bytes) (target : Path) :
     | some c => (r.1, c :: r.2)
     | none => r
 
+/-! ### several stores at once
+
+The struct mutex lets one store run at a time inside a process (`step` above: `begin` while a store is
+pending is a no-op).  Nothing serialises two client *processes* that share one assets directory, and
+the mutex itself is an assumption about the code.  `cstep` drops it: any number of stores, each with
+its own program counter, interleave their system calls arbitrarily. -/
+
+structure CTask where
+  tmp : Path
+  buf : Bytes        -- the marshalled configuration this store writes
+  pc : Pc
+
+structure CSt where
+  fs : FS
+  tasks : Nat → Option CTask := fun _ => none
+  /-- ghost: the marshalled bytes of every store begun so far -/
+  begun : List Bytes := []
+
+inductive CEv
+  /-- store number `i` (fresh) begins: its configuration marshalled to `buf`, temporary name `tmp` -/
+  | begin (i : Nat) (buf : Bytes) (tmp : Path)
+  /-- the environment answers the pending system call of store `i` -/
+  | sys (i : Nat) (r : Res)
+
+def cstep (target : Path) (s : CSt) : CEv → CSt
+  | .begin i buf tmp =>
+    if (s.tasks i).isSome then s
+    else { s with tasks := fun j => if j = i then some ⟨tmp, buf, .openTmp buf⟩ else s.tasks j, begun := buf :: s.begun }
+  | .sys i r =>
+    match s.tasks i with
+    | none => s
+    | some t =>
+      match next target t.tmp s.fs t.pc r with
+      | none => s
+      | some (pc', fs') => { s with fs := fs', tasks := fun j => if j = i then some { t with pc := pc' } else s.tasks j }
+
+def crun (target : Path) (evs : List CEv) (s : CSt) : CSt := evs.foldl (cstep target) s
+
 /-! ### the temporary file's name
 
 `getRandInt(0, 61)` reads an `int64`, negates it when negative (`v *= -1`, which wraps for the
